@@ -212,6 +212,11 @@ def overridden_by(reg, prog, qual):
     if len(parts) < 3 or parts[-2] not in prog.classes:
         return None
     base, meth = parts[-2], parts[-1]
+    if prog.modules[prog.classes[base]['module']][0].startswith(prog.repo):
+        # a method of a repository class still runs for receivers of that class when a subclass overrides it (ActionPrebuilder.accept_BodyNode
+        # vs. BridgePrebuilder): the contract keeps describing running code.  The guard is for code the repository only *inherits*
+        # (stdlib mixins): there the contract matters solely through the repository classes below it.
+        return None
     for k, info in prog.classes.items():
         if k == base or not prog.modules[info['module']][0].startswith(prog.repo):
             continue
